@@ -229,7 +229,7 @@ def main():
                    "the ordinary build never defines it",
             baseline_off_cmd="make -C /repo -j8 >/dev/null 2>&1; make -C /repo/src/tests -j8 check",
             source_commits=hooks_commits,
-            add_only=True,
+            add_only=False,
         ),
         engines=[
             dict(name="cbmc-contracts", path="/verif/lib/vdriver.py",
